@@ -15,10 +15,11 @@ Proof. reflexivity. Qed.
 (* ------------------------------------------------------------------------------------------- *)
 (* Path 1                                                                                        *)
 
-Lemma propose_no_panic : forall i, is_panic (snd (propose_now i)) = false.
+Lemma propose_no_panic : forall i, delivered i -> is_panic (snd (propose_now i)) = false.
 Proof.
-  intro i. unfold propose_now, propose.
+  intros i Hd. unfold propose_now, propose. unfold delivered in Hd.
   destruct (p1_proposal i) as [p|]; [|reflexivity].
+  rewrite (Hd p eq_refl).
   destruct (negb (version_handled (pr_version p) && pr_present p)); [reflexivity|].
   destruct (negb (pr_slot_ok p)); [reflexivity|].
   destruct (negb (p1_sign_ok i)); [reflexivity|].
@@ -55,7 +56,7 @@ Lemma propose_reaches_unfold : forall g i p, reaches i p ->
     end
   else (tr true [] true, if p1_submit_ok i then Ok tt else Err ESubmit).
 Proof.
-  intros g i p (Hp & Hv & Hpr & Hs & Hsg). unfold propose. rewrite Hp, Hv, Hpr, Hs, Hsg. cbn [andb negb].
+  intros g i p (Hp & Hv & Hpr & Hs & Hsg). unfold propose, lib_nil_deneb. rewrite Hp, Hv, Hpr, Hs, Hsg. cbn [andb negb]. rewrite andb_false_r.
   destruct (pr_blinded p); [|reflexivity].
   destruct (p1_auction i) as [| |a]; try reflexivity.
   destruct (filter pv_unblinds (unblind_candidates (p1_unblind_all i) a)); reflexivity.
@@ -70,13 +71,14 @@ Proof.
   unfold no_auction_result in Hn. destruct (p1_auction i); try reflexivity. destruct Hn.
 Qed.
 
-Lemma propose_unguarded_panics_iff : forall i,
-  snd (propose false i) = Panic <->
-  exists p, reaches i p /\ pr_blinded p = true /\ no_auction_result i.
+Lemma propose_unguarded_panics_iff : forall i, delivered i ->
+  (snd (propose false i) = Panic <->
+   exists p, reaches i p /\ pr_blinded p = true /\ no_auction_result i).
 Proof.
-  intro i; split.
-  - unfold propose. intro H.
+  intros i Hd; split.
+  - unfold propose. intro H. unfold delivered in Hd.
     destruct (p1_proposal i) as [p|] eqn:Hp; [|discriminate].
+    rewrite (Hd p eq_refl) in H.
     destruct (version_handled (pr_version p) && pr_present p) eqn:Hv; cbn [negb] in H; [|discriminate].
     destruct (pr_slot_ok p) eqn:Hs; cbn [negb] in H; [|discriminate].
     destruct (p1_sign_ok i) eqn:Hsg; cbn [negb] in H; [|discriminate].
@@ -102,7 +104,7 @@ Lemma propose_local_ignores_auction : forall i a,
 Proof.
   intros i a H. unfold propose_now, propose, with_auction; cbn [p1_graffiti p1_auction p1_proposal p1_sign_ok p1_unblind_all p1_unblind_ok p1_submit_ok].
   destruct (p1_proposal i) as [p|]; [|reflexivity].
-  rewrite (H p eq_refl). reflexivity.
+  rewrite (H p eq_refl). unfold lib_nil_deneb. destruct ((pr_version p =? 5) && negb false && negb (pr_present p)); reflexivity.
 Qed.
 
 Lemma propose_local_submitted : forall i p,
@@ -123,6 +125,7 @@ Lemma propose_unblinders_from_auction : forall i r,
 Proof.
   intros i r. unfold propose_now, propose.
   destruct (p1_proposal i) as [p|]; [|intros []].
+  destruct (lib_nil_deneb p); [intros []|].
   destruct (negb (version_handled (pr_version p) && pr_present p)); [intros []|].
   destruct (negb (pr_slot_ok p)); [intros []|].
   destruct (negb (p1_sign_ok i)); [intros []|].
@@ -144,6 +147,7 @@ Lemma propose_order : forall i,
 Proof.
   intro i. unfold propose_now, propose.
   destruct (p1_proposal i) as [p|]; [|cbn; repeat split; intros; try discriminate; try congruence].
+  destruct (lib_nil_deneb p); [cbn; repeat split; intros; try discriminate; congruence|].
   destruct (negb (version_handled (pr_version p) && pr_present p)); [cbn; repeat split; intros; try discriminate; congruence|].
   destruct (negb (pr_slot_ok p)); [cbn; repeat split; intros; try discriminate; congruence|].
   destruct (negb (p1_sign_ok i)); [cbn; repeat split; intros; try discriminate; congruence|].
@@ -154,6 +158,10 @@ Proof.
     destruct (p1_unblind_ok i && version_unblindable (pr_version p)); cbn; repeat split; intros; try discriminate; try reflexivity.
   - cbn. repeat split; intros; try reflexivity. injection H as <-. congruence.
 Qed.
+
+Lemma lib_nil_deneb_panics : forall g i p,
+  p1_proposal i = Some p -> lib_nil_deneb p = true -> snd (propose g i) = Panic.
+Proof. intros g i p Hp Hl. unfold propose. rewrite Hp, Hl. reflexivity. Qed.
 
 Lemma pad32_length : forall l, length (pad32 l) = 32%nat.
 Proof.
@@ -168,6 +176,7 @@ Lemma propose_graffiti : forall i,
 Proof.
   intro i. unfold propose_now, propose.
   destruct (p1_proposal i) as [p|]; [|reflexivity].
+  destruct (lib_nil_deneb p); [reflexivity|].
   destruct (negb (version_handled (pr_version p) && pr_present p)); [reflexivity|].
   destruct (negb (pr_slot_ok p)); [reflexivity|].
   destruct (negb (p1_sign_ok i)); [reflexivity|].
